@@ -352,17 +352,25 @@ func GenBlock(rt *rapid.T, o GenOpts) *Gen {
 		g.Ops = append(g.Ops, "as-is")
 	}
 
-	// --- Dijkstra: Leios-extended header body (leios_certified, leios_announcement / nil)
-	if g.Type == fixtures.TypeDijkstra && rapid.Bool().Draw(rt, "leiosHeader") {
+	// --- Dijkstra: plain 10-field header body, or Leios-extended 12-field body
+	// (leios_certified : bool, leios_announcement : [hash32, uint .size 4] / nil)
+	if g.Type == fixtures.TypeDijkstra {
 		hb := v.HeaderBody()
-		ann := xcbor.Null()
-		if rapid.Bool().Draw(rt, "announce") {
-			eb := rapid.SliceOfN(rapid.Byte(), 32, 32).Draw(rt, "ebHash")
-			ann = xcbor.A(xcbor.B(eb), xcbor.U(uint64(rapid.Uint32().Draw(rt, "ebSize"))))
+		switch rapid.IntRange(0, 2).Draw(rt, "leiosHeader") {
+		case 1:
+			hb.Items = hb.Items[:10]
+			fixWidth(hb)
+			g.Ops = append(g.Ops, "header-body-10-fields")
+		case 2:
+			ann := xcbor.Null()
+			if rapid.Bool().Draw(rt, "announce") {
+				eb := rapid.SliceOfN(rapid.Byte(), 32, 32).Draw(rt, "ebHash")
+				ann = xcbor.A(xcbor.B(eb), xcbor.U(uint64(rapid.Uint32().Draw(rt, "ebSize"))))
+			}
+			hb.Items = append(hb.Items[:10:10], xcbor.Bool(rapid.Bool().Draw(rt, "certified")), ann)
+			fixWidth(hb)
+			g.Ops = append(g.Ops, "header-body-12-fields(leios)")
 		}
-		hb.Items = append(hb.Items, xcbor.Bool(rapid.Bool().Draw(rt, "certified")), ann)
-		fixWidth(hb)
-		g.Ops = append(g.Ops, "leios-header-extension")
 	}
 
 	// --- style plan
